@@ -107,9 +107,10 @@ class CharAllowed:
                 if self.is_super_call(s.value):
                     # result discarded; may raise for the same precondition only
                     continue
-                if self.is_encode_ascii(s.value):
-                    E = E | (reach - ISet([(0, 127)]))   # raises UnicodeError
-                    reach = reach & ISet([(0, 127)])
+                mx = self.is_encode_ascii(s.value)
+                if mx is not None:
+                    E = E | (reach - ISet([(0, mx)]))   # raises UnicodeError
+                    reach = reach & ISet([(0, mx)])
                     continue
                 raise Unsupported(norm(s))
             if isinstance(s, ast.Assign) and len(s.targets) == 1 and isinstance(s.targets[0], ast.Name):
@@ -164,12 +165,19 @@ class CharAllowed:
         return isinstance(e, ast.Call) and isinstance(e.func, ast.Attribute) and e.func.attr == "char_allowed" and \
             isinstance(e.func.value, ast.Call) and isinstance(e.func.value.func, ast.Name) and e.func.value.func.id == "super"
 
+    CODEC_MAX = {"ascii": 127, "us_ascii": 127, "latin_1": 255, "latin1": 255, "iso_8859_1": 255, "iso8859_1": 255,
+                 "l1": 255, "utf_8": MAXCP, "utf8": MAXCP, "utf_16": MAXCP, "utf_32": MAXCP}
+
     def is_encode_ascii(self, e):
+        """char.encode(<codec>): returns the largest code point the codec can encode, or None."""
         if isinstance(e, ast.Call) and isinstance(e.func, ast.Attribute) and e.func.attr == "encode" and \
                 isinstance(e.func.value, ast.Name) and e.func.value.id == self.charvar:
             args = [a for a in e.args] + [k.value for k in e.keywords if k.arg == "encoding"]
-            return len(args) == 1 and isinstance(args[0], ast.Constant) and str(args[0].value).lower().replace("-", "_") in ("ascii", "us_ascii")
-        return False
+            if not args:
+                return MAXCP
+            if len(args) == 1 and isinstance(args[0], ast.Constant):
+                return self.CODEC_MAX.get(str(args[0].value).lower().replace("-", "_"))
+        return None
 
     def num(self, e, env):
         """-> ('ORD', k) for ord(char)+k or ('C', n)"""
